@@ -73,7 +73,7 @@ func pickHostileDelims(r *h.Rand) delims { return hostileDelims[r.Intn(len(hosti
 
 // ---------------------------------------------------------------- expression source
 
-var identPool = []string{"a", "b", "s", "m", "f", "x1", "_y", "é", "item", "upper", "len", "isset", "true", "false", "nil"}
+var identPool = []string{"a", "b", "s", "m", "f", "x1", "_y", "é", "item", "upper", "len", "isset", "true", "false", "nil", "proč", "Ġa", "aРb"}
 // operands that take a postfix (field chain, index, slice, call); the literals among the identifiers
 // only now and then (a '.' after them is a parse error)
 func postfixBase(r *h.Rand) string {
@@ -223,7 +223,7 @@ func genAssign(r *h.Rand) string {
 
 // ---------------------------------------------------------------- template source
 
-var textAlphabet = []string{"a", "b", " ", "  ", "\n", "\t", "\r\n", "\v", "\f", "\u00a0", "\u2028", "\u0085", "{", "}", "*", "-", "é", "日本", "<b>", "&", "{ {", "}}x"[2:], "%", "[", "]", "<", "#", "@", "\x00", "\xff"}
+var textAlphabet = []string{"a", "b", " ", "  ", "\n", "\t", "\r\n", "\v", "\f", "\u00a0", "\u2028", "\u0085", "{", "}", "*", "-", "é", "日本", "č", "Ġ", "ĉ", "Ċ", "Р", "†", "不", "\U0001f60d", "<b>", "&", "{ {", "}}x"[2:], "%", "[", "]", "<", "#", "@", "\x00", "\xff"}
 
 func genText(r *h.Rand) string {
 	n := 1 + r.Intn(6)
@@ -362,7 +362,7 @@ func genTemplateSrc(r *h.Rand, d delims, depth int) string {
 	return sb.String()
 }
 
-var noiseBytes = []string{"٣", "-１", "\x00", "\xff", "\xc3", "\xe2\x82", "\xf0\x9f\x98\x80", "_é", "_", "é", "&", "&&", "|", "||", ".", "..", "'", "\"", "`", "\\", "(", ")", "[", "]", "{{", "}}", "{*", "*}", "- ", " -", "-", "+", "1", "0x", "e", "\n", ":", "=", ":=", "!", "?", ",", ";"}
+var noiseBytes = []string{"٣", "-１", "\x00", "\xff", "\xc3", "\xe2\x82", "\xf0\x9f\x98\x80", "_é", "_", "é", "č", "†", "不", "Ċ", "&", "&&", "|", "||", ".", "..", "'", "\"", "`", "\\", "(", ")", "[", "]", "{{", "}}", "{*", "*}", "- ", " -", "-", "+", "1", "0x", "e", "\n", ":", "=", ":=", "!", "?", ",", ";"}
 
 // mutate: a malformed variant of a valid source
 func mutate(r *h.Rand, s string) string {
